@@ -21,7 +21,7 @@ ASSUMPTIONS = [
     'amounts are non-negative and at most 21e14 smallest units',
 ]
 BOUNDS = {
-    'quick': 'every integer amount 0..21e14 smallest units; decimal strings with every digit string of d decimals for d in the listed set per denominator; denominators: all of NETWORK_DENOMINATORS from sat to M (sub-satoshi denominators with amounts that are whole satoshis); networks bitcoin, litecoin, dogecoin, dash, testnet (currency code only matters for parsing)',
+    'quick': 'from_satoshi / str: every integer amount 0..21e14 under the unit and sat denominators, amounts 0..1000 (value) and 0..3 (text) under m, c, d, da, h, k, M; parsing: every integer amount 0..21e14 smallest units; decimal strings with every digit string of d decimals for d in the listed set per denominator; denominators: all of NETWORK_DENOMINATORS from sat to M (sub-satoshi denominators with amounts that are whole satoshis); networks bitcoin, litecoin, dogecoin, dash, testnet (currency code only matters for parsing)',
     'thorough': 'as quick with every d in 0..8 for every denominator and every network of NETWORK_DEFINITIONS',
 }
 OUTSIDE = "'auto' denominator selection, arithmetic operators of Value, amounts above 21e6 coins, negative amounts"
@@ -122,10 +122,10 @@ def _str_cut(v, den):
     return s, None
 
 
-def h_from_satoshi(ex, den, symb, network, code):
+def h_from_satoshi(ex, den, symb, network, code, nmax=MAX_SAT):
     """from_satoshi(n, den).value_sat == n"""
     V, T = _mods()
-    n = ex.lint('n', 0, MAX_SAT)
+    n = ex.lint('n', 0, nmax)
     v = V.Value.from_satoshi(n, denominator=den, network=network)
     got = v.value_sat
     ex.check(got == n, 'from_satoshi-value_sat-roundtrip')
@@ -267,6 +267,10 @@ def jobs(tier):
     # the text form for the other denominators: amounts of 0..3 smallest units (the number of decimals printed is what
     # differs between denominators; larger amounts time out in the float model)
     for den, symb in dens.items():
+        if symb in ('m', 'c', 'd', 'da', 'h', 'k', 'M'):
+            # value_sat round trip for small amounts under every denominator up to mega (larger amounts time out)
+            J.append(Job('from_satoshi_%s_bitcoin_small' % symb, h_from_satoshi, W=8, setup=setup, incremental=False, optimistic=True,
+                         params=dict(den=den, symb=symb, network='bitcoin', code='BTC', nmax=1000), budget_s=1200, timeout_ms=600000))
         if symb in ('m', 'c', 'd', 'da', 'h'):
             J.append(Job('from_satoshi_str_%s_bitcoin_small' % symb, h_from_satoshi_str, W=8, setup=setup, incremental=False, optimistic=True,
                          params=dict(den=den, symb=symb, network='bitcoin', code='BTC', nmax=3), budget_s=1200, timeout_ms=600000))
